@@ -86,6 +86,8 @@ def exec_typing(r):
     del KEEP[:]
     cls = classes.build(r["cls"])
     seq = r["seq"]
+    if r.get("linear"):
+        return [{"ev": "LinearTyping", "cls": classes.describe(cls), "seq": dna.enc(seq), "res": query(cls, record(seq, circular=False))}]
     ev = {"ev": "Typing", "cls": classes.describe(cls), "seq": dna.enc(seq), "res": query(cls, record(seq)),
           "twin": {"by": "none", "k": 0, "res": {}}, "gen": {"has": False, "toks": [], "res": {}}}
     tw = r.get("twin")
